@@ -190,6 +190,13 @@ CallSetter(w, o, args) ==
   /\ script' = Append(script, [op |-> "call", sig |-> w.sig, k |-> 0, this |-> o, args |-> args,
                                ret |-> 0, rb |-> args[1], post |-> Post])
 
+\* item assignment through  int &operator [](K i):  the element i selects takes the value; `item` says which of
+\* the four elements that is, `rb` what reading it back must give
+CallItemSet(w, o, args) ==
+  /\ heap' = heap
+  /\ script' = Append(script, [op |-> "call", sig |-> w.sig, k |-> 0, this |-> o, args |-> args, ret |-> 0,
+                               item |-> H(w.sig.ps[1], args[1], heap) % 4, rb |-> args[2], post |-> Post])
+
 Call ==
   /\ phase = "run" /\ NCalls < MaxCalls
   /\ \E w \in AllVariants :
@@ -198,6 +205,7 @@ Call ==
             /\ ~Seen(w, cmb[1], cmb[2])
             /\ CASE w.sig.fk = "getter" -> CallGetter(w, cmb[1])
                  [] w.sig.fk = "setter" -> CallSetter(w, cmb[1], cmb[2])
+                 [] w.sig.fk = "opIndexRef" -> CallItemSet(w, cmb[1], cmb[2])
                  [] OTHER -> CallOrdinary(w, cmb[1], cmb[2])
             /\ seen' = Mark(w, cmb[1], cmb[2])
   /\ UNCHANGED <<lib, phase>>
